@@ -840,6 +840,49 @@ def _h_fit_qual(ctx, cls, kind, sizes, n_nan, params, props):
             ctx.require(hist == fitted, "C16.history-viable-is-not-fitted", f"last combination flagged viable {last} differs from the fitted grouping {[list(vo.content[l]) for l in vo]}")
             raw = [e for e in h if e.get("viability") is None and e.get("viability_message") == ["Raw X distribution"]]
             ctx.require(len(raw) == 1, "C16.history-raw-distribution", f"{len(raw)} raw-distribution entries in the history")
+    if "C08" in props:
+        # a fit refused because of the dev sample, then the same object fitted on well-formed input: same result as a fresh object
+        def mk():
+            return ContinuousCarver(copy=True, **(dict(ordinal_features=["f"], values_orders={"f": rk()}) if kind == "ord" else dict(qualitative_features=["f"])), **p) \
+                if cls == "ContinuousCarver" else BinaryCarver(copy=True, **(dict(ordinal_features=["f"], values_orders={"f": rk()}) if kind == "ord" else dict(qualitative_features=["f"])), **p)
+
+        good_dev = X.iloc[::-1].copy()
+        good_dev.index = [700 + i for i in range(len(good_dev))]
+        y_good = pd.Series(list(y)[::-1], index=good_dev.index)
+        bad_dev = good_dev.copy()
+        bad_dev.iloc[0, 0] = np.nan if n_nan == 0 else "never_seen"
+        retry = mk()
+        refused = False
+        try:
+            retry.fit(X, y, X_dev=bad_dev, y_dev=y_good)
+        except AssertionError:
+            refused = True
+        except Violation:
+            raise
+        except Exception as e:
+            ctx.require(False, "C08.internal-error", f"{cls}.fit with an unexpected value in X_dev raised {type(e).__name__}: {str(e)[:160]} (sizes {sizes}, y={ycol})")
+        if refused:
+            def run(o):
+                try:
+                    o.fit(X, y, X_dev=good_dev, y_dev=y_good)
+                    return "fitted"
+                except AssertionError:
+                    return "AssertionError"
+                except Violation:
+                    raise
+                except Exception as e:
+                    import traceback
+                    ctx.require(False, "C08.internal-error", f"{cls}.fit on well-formed input after a refused fit of the same object raised {type(e).__name__}: {str(e)[:160]} | {traceback.format_exc(limit=-2)[-300:]} (sizes {sizes}, y={ycol})",
+                                dict(after_refused_fit=True))
+            fresh = mk()
+            st_r, st_f = run(retry), run(fresh)
+            ctx.require(st_r == st_f, "C08.refused-fit-left-state", f"fit after a refused fit: {st_r}; fresh object: {st_f}")
+            if st_f == "fitted":
+                ctx.require(sorted(retry.features) == sorted(fresh.features), "C08.refused-fit-left-state", f"features after a refused fit {sorted(retry.features)} != fresh object {sorted(fresh.features)}")
+                if "f" in fresh.features:
+                    a, b = retry.values_orders["f"], fresh.values_orders["f"]
+                    ctx.require(list(a) == list(b) and all(list(a.content[k]) == list(b.content[k]) for k in a), "C08.refused-fit-left-state",
+                                f"values_orders after a refused fit {dict(a.content)} != fresh object {dict(b.content)}")
     if "C01" in props:
         def base():
             d = Discretizer(quantitative_features=[], qualitative_features=[] if kind == "ord" else ["f"], min_freq=params["min_freq"], copy=True,
@@ -864,6 +907,9 @@ def obligation_qual(tier, props, name, classes=("BinaryCarver", "ContinuousCarve
                         if n_nan == 0 and params["dropna"] is False:
                             continue
                         jobs.append(dict(cls=cls, kind=kind, sizes=sizes, n_nan=n_nan, params=params, props=sorted(props)))
+            if "C08" in props and kind == "qual":
+                # a single rare level: the default group it forms is itself rarer than min_freq
+                jobs.append(dict(cls=cls, kind=kind, sizes=(4, 4, 1), n_nan=0, params=dict(min_freq=0.2, sort_by="cramerv", max_n_mod=3, output_dtype="str", dropna=True), props=sorted(props)))
             if ("C16" in props or not quick) and kind == "qual":
                 # two rare levels merged into the default group that joins a more frequent, lower-rate level
                 jobs.append(dict(cls=cls, kind=kind, sizes=(3, 1, 1, 3, 3), n_nan=2, params=dict(min_freq=0.2, sort_by="cramerv", max_n_mod=2, output_dtype="str", dropna=True), props=sorted(props)))
